@@ -22,8 +22,17 @@ type receivePayloadQueue struct {
 func newReceivePayloadQueue(maxTSNOffset uint32) *receivePayloadQueue {
 	maxTSNOffset = ((maxTSNOffset + 63) / 64) * 64
 
+	// A TSN is tracked in word (tsn/64) modulo the bitmap length. The length
+	// must be a power of two: otherwise it does not divide 2^32/64 and the
+	// mapping jumps where the TSN wraps around, so that TSNs on both sides of
+	// the wrap that lie within one window share a bit.
+	words := uint32(1)
+	for words < maxTSNOffset/64 {
+		words <<= 1
+	}
+
 	return &receivePayloadQueue{
-		tsnBitmask:   make([]uint64, maxTSNOffset/64),
+		tsnBitmask:   make([]uint64, words),
 		maxTSNOffset: maxTSNOffset,
 	}
 }
